@@ -149,6 +149,9 @@ pub fn op_strategy(n_peers: u8, mix: Mix) -> BoxedStrategy<Op> {
     let submit_att = (xsel(), 0u8..3, any::<bool>(), body())
         .prop_map(|(x, z, with_record, body)| Op::SubmitToAttacker { x, z, with_record, body })
         .boxed();
+    let guessed = (peer(), node(), 0u8..3, prop_oneof![Just(ForgedBody::Ping), Just(ForgedBody::Talk)])
+        .prop_map(|(peer, to, key, body)| Op::GuessedKeyMessage { peer, to, key, body })
+        .boxed();
     let mut all = honest;
     match mix {
         Mix::Faulty => {}
@@ -162,6 +165,7 @@ pub fn op_strategy(n_peers: u8, mix: Mix) -> BoxedStrategy<Op> {
             all.push((2, submit_att));
         }
         Mix::Identity => {
+            all.push((2, guessed.clone()));
             all.push((12, probe));
             all.push((16, forged_handshake()));
             all.push((6, forged_msg));
@@ -175,6 +179,7 @@ pub fn op_strategy(n_peers: u8, mix: Mix) -> BoxedStrategy<Op> {
             all.push((2, probe));
         }
         Mix::Tamper => {
+            all.push((2, guessed.clone()));
             all.push((2, forged_handshake()));
             all.push((16, mutate));
             all.push((5, redirect));
@@ -298,10 +303,33 @@ pub fn ops_strategy(n_peers: u8, mix: Mix, max_fragments: usize) -> BoxedStrateg
             v
         })
         .boxed();
+    // a node re-keys its session with a peer that restarted; afterwards a datagram the peer had sent
+    // under the PREVIOUS keys arrives (the receiver falls back to the old keys and rotates them back),
+    // then somebody presents a message under a guessable key from the peer's address
+    let old_key_fallback = (0u8..n_peers.max(1), 0u8..3, any::<bool>()).prop_map(|(p, key, with_record)| {
+        let peer = 1 + p;
+        vec![
+            Op::DeliverAll,
+            Op::Submit { from: 0, to: peer, body: Body::Ping, with_record: true },
+            Op::DeliverAll,
+            // stays in the pool for now (the oldest datagram there)
+            Op::Submit { from: peer, to: 0, body: Body::Ping, with_record },
+            Op::Restart(p),
+            Op::Submit { from: 0, to: peer, body: Body::Ping, with_record: true },
+            Op::Deliver(65535),
+            Op::Deliver(65535),
+            Op::Deliver(65535),
+            Op::Deliver(65535),
+            Op::Deliver(0),
+            Op::GuessedKeyMessage { peer: p, to: 0, key, body: ForgedBody::Ping },
+            Op::DeliverAll,
+        ]
+    })
+    .boxed();
     let frag = match mix {
         Mix::Identity => prop_oneof![18 => single, 12 => attack, 2 => spoof_race, 1 => early_replay].boxed(),
         Mix::Exemptions => prop_oneof![6 => single, 1 => attack].boxed(),
-        Mix::Tamper => prop_oneof![30 => single, 6 => exchange, 1 => spoof_race].boxed(),
+        Mix::Tamper => prop_oneof![30 => single, 6 => exchange, 1 => spoof_race, 1 => old_key_fallback].boxed(),
         Mix::Replay => prop_oneof![30 => single, 6 => exchange, 1 => late_handshake, 1 => early_replay].boxed(),
         _ => prop_oneof![60 => single, 1 => burst_fail].boxed(),
     };
